@@ -371,7 +371,7 @@ func lifecycleCuts(t *testing.T, h *H) {
 		for k := int64(1); k < 1400; k += int64(step) {
 			progress("lifecycleCuts %v k=%d", trs, k)
 			var mu sync.Mutex
-			connected, disconnects, late := 0, 0, 0
+			connected, disconnects, late, overtaken := 0, 0, 0, 0
 			var reasons []string
 			listedAfter, roomsAfter := 0, 0
 			synctest.Test(t, func(t *testing.T) {
@@ -388,7 +388,14 @@ func lifecycleCuts(t *testing.T, h *H) {
 					mu.Unlock()
 					s.Join("room")
 					s.OnEvent("m", func(string, func(string)) {})
+					wasConnected := s.Connected()
 					s.OnDisconnect(func(reason sio.Reason) { mu.Lock(); disconnects++; reasons = append(reasons, string(reason)); mu.Unlock() })
+					if wasConnected && !s.Connected() {
+						// the close overtook the registration above: whether the handler still runs is undecided here
+						mu.Lock()
+						overtaken++
+						mu.Unlock()
+					}
 				})
 				// every connection the client opens is cut after k bytes in total (counted per connection)
 				r.net.mu.Lock()
@@ -427,8 +434,10 @@ func lifecycleCuts(t *testing.T, h *H) {
 			if late > 0 {
 				h.Violation("C06", "a socket is handed to the connection handler after it was disconnected; handlers registered there never run", "the connection ends while a namespace middleware runs", desc)
 			}
-			if disconnects != connected {
+			if disconnects > connected || disconnects < connected-overtaken {
 				h.Violation("C06", "the disconnect handlers of a socket that had connected do not run exactly once", desc, fmt.Sprintf("%d sockets connected, %d disconnects %v", connected, disconnects, reasons))
+			} else if disconnects < connected {
+				h.Violation("C06", "a socket is handed to the connection handler after it was disconnected; handlers registered there never run", "the connection ends while a namespace middleware runs", desc)
 			}
 			if listedAfter != 0 || roomsAfter != 0 {
 				h.Violation("C06", "a socket whose connection ended is still listed in its namespace or in a room", desc, fmt.Sprintf("listed=%d with rooms=%d", listedAfter, roomsAfter))
